@@ -100,6 +100,9 @@ __CPROVER_ensures((g_v.compaction_score >= 1) == (ANY_OVER ? 1 : 0))
 __CPROVER_ensures(!(g_v.compaction_score >= 1) || (LEVEL_OVER(g_v.compaction_level) && g_v.files[g_v.compaction_level].length > 0))
 /* a level that is under its limit is never preferred to one that is over */
 __CPROVER_ensures(!ANY_OVER || LEVEL_OVER(g_v.compaction_level))
+/* the shallowest level wins a tie; the exactly representable case: an empty version scores 0 everywhere and reports level 0
+   (the general statement in doubles is ver3.finalize.score) */
+__CPROVER_ensures(!(FN0 == 0 && FB(1) == 0 && FB(2) == 0 && FB(3) == 0 && FB(4) == 0 && FB(5) == 0) || (g_v.compaction_level == 0 && g_v.compaction_score == 0))
 ;
 /* (b) the floating-point reading: the score is the score of the chosen level, the largest of all, the shallowest level winning a tie */
 void c3_versions_finalize_score(ldb_versions_t *vset, ldb_version_t *v)
